@@ -203,3 +203,113 @@ REVIEWED_HOM_SITES.update(
         ("whatshap.cli.compare.run_compare", "gt"): "feeds only the informational 'VARIANT COUNTS (heterozygous / all)' lines and het_variants0; no error count of C11 depends on it",
     }
 )
+
+
+class _Unknown(Exception):
+    pass
+
+
+def _tt_eval(e, env):
+    if isinstance(e, ast.Constant) and isinstance(e.value, (bool, int)) and e.value in (0, 1, True, False):
+        return bool(e.value)
+    if isinstance(e, ast.BoolOp):
+        vals = [_tt_eval(v, env) for v in e.values]
+        return all(vals) if isinstance(e.op, ast.And) else any(vals)
+    if isinstance(e, ast.UnaryOp) and isinstance(e.op, ast.Not):
+        return not _tt_eval(e.operand, env)
+    if isinstance(e, ast.IfExp):
+        return _tt_eval(e.body, env) if _tt_eval(e.test, env) else _tt_eval(e.orelse, env)
+    if isinstance(e, ast.Call) and u(e.func) == "bool" and len(e.args) == 1:
+        return _tt_eval(e.args[0], env)
+    t = u(e)
+    if t in env:
+        return env[t]
+    raise _Unknown(t)
+
+
+def _tt_block(stmts, env):
+    """Interpret a block of if / constant-assignment / return statements over boolean atoms.
+    Returns ('return', value) or ('fall', None)."""
+    for s in stmts:
+        if isinstance(s, ast.Expr) and isinstance(s.value, ast.Constant):
+            continue  # docstring
+        if isinstance(s, ast.Pass):
+            continue
+        if isinstance(s, ast.If):
+            r = _tt_block(s.body if _tt_eval(s.test, env) else s.orelse, env)
+            if r[0] == "return":
+                return r
+            continue
+        if isinstance(s, ast.Assign) and len(s.targets) == 1 and isinstance(s.targets[0], ast.Name):
+            env[s.targets[0].id] = _tt_eval(s.value, env)
+            continue
+        if isinstance(s, ast.Return) and s.value is not None:
+            return ("return", _tt_eval(s.value, env))
+        raise _Unknown("statement `%s`" % u(s)[:60])
+    return ("fall", None)
+
+
+def boolean_truth_table(fnode, atom_texts):
+    """Truth table {valuation tuple: returned bool} of a function that is a pure decision over the given
+    boolean atoms (if / elif / else, constant or boolean-expression assignments, return).  The function's
+    statements are interpreted abstractly over every valuation; nothing of whatshap is executed.
+    Raises ValueError naming the construct when the body is not of that shape."""
+    import itertools
+
+    table = {}
+    for vals in itertools.product((False, True), repeat=len(atom_texts)):
+        env = dict(zip(atom_texts, vals))
+        try:
+            r = _tt_block(fnode.body, env)
+        except _Unknown as e:
+            raise ValueError(str(e))
+        if r[0] != "return":
+            raise ValueError("falls off the end")
+        table[vals] = r[1]
+    return table
+
+
+ID_ATTRS = ("id", "block_id")
+
+
+def _truth_leaves(e):
+    """Operands whose *truthiness* decides a test (through and / or / not / bool())."""
+    if isinstance(e, ast.BoolOp):
+        for v in e.values:
+            for x in _truth_leaves(v):
+                yield x
+    elif isinstance(e, ast.UnaryOp) and isinstance(e.op, ast.Not):
+        for x in _truth_leaves(e.operand):
+            yield x
+    elif isinstance(e, ast.Call) and u(e.func) == "bool" and len(e.args) == 1:
+        for x in _truth_leaves(e.args[0]):
+            yield x
+    else:
+        yield e
+
+
+def id_truthiness_tests(fnode, id_attrs=ID_ATTRS):
+    """Tests that use a phase-set / block id as a boolean.  Ids are integers and 0 is a legal id (VcfReader gives
+    block id 0 to '|'-phased calls without PS), so `if x.id:` confuses phase set 0 with "no phase set".
+    Returns [(node, text)]."""
+    out = []
+    for n in walk_function(fnode):
+        tests = []
+        if isinstance(n, (ast.If, ast.While, ast.IfExp, ast.Assert)):
+            tests.append(n.test)
+        elif isinstance(n, ast.comprehension):
+            tests.extend(n.ifs)
+        elif isinstance(n, ast.BoolOp):
+            tests.append(n)
+        for t in tests:
+            for leaf in _truth_leaves(t):
+                if isinstance(leaf, ast.Attribute) and leaf.attr in id_attrs:
+                    out.append((leaf, u(leaf)))
+                elif isinstance(leaf, ast.Name) and leaf.id in id_attrs:
+                    out.append((leaf, leaf.id))
+    seen, uniq = set(), []
+    for node, txt in out:
+        if id(node) not in seen:
+            seen.add(id(node))
+            uniq.append((node, txt))
+    return uniq
